@@ -66,14 +66,28 @@ __CPROVER_assigns(tsg_exc)
     double hi = 1.0; mapCanonicalToTransformed(&s, 1, 1, rule, &hi);
     __CPROVER_assert(hi == s.domain_transform_b[0], "L10a the canonical upper end point maps to b");
   }
-  /* L10b: the Jacobian is the rate of the pull-back */
+}
+//@ harness h_lemma_roundtrip
+void h_lemma_roundtrip(void){ int a_rule = nondet_int(), a_a = nondet_int(), a_k = nondet_int(), a_x = nondet_int(); lemma_roundtrip(a_rule, a_a, a_k, a_x); __CPROVER_assert(0, "VACUITY-CANARY"); }
+
+//@ lemma lemma_jacobian
+void lemma_jacobian(int rule_i, int ai, int k, int xi)
+__CPROVER_requires(rule_i >= rule_none && rule_i <= rule_fourier && FAMILY(rule_i))
+__CPROVER_requires(-(1 << LB) <= ai && ai <= (1 << LB) && 0 <= k && k <= KMAX && -(1 << LX) <= xi && xi <= (1 << LX))
+__CPROVER_ensures(1)
+__CPROVER_assigns(tsg_exc)
+{
+  TypeOneDRule rule = (TypeOneDRule) rule_i;
+  TSGT s; lattice_transform(&s, rule, ai, k);
+  double t = (double) ai + (double) xi;                   /* a transformed lattice point */
+  double c = t; mapTransformedToCanonical(&s, 1, 1, rule, &c);
   double jac[TSG_NDIM]; tsg_exc = 0;
   diffCanonicalTransform(&s, jac);
   double c1 = t + 1.0; mapTransformedToCanonical(&s, 1, 1, rule, &c1);
   __CPROVER_assert(tsg_exc == 0 && c1 - c == jac[0], "L10b diffCanonicalTransform is the multiplicative rate of mapTransformedToCanonical");
 }
-//@ harness h_lemma_roundtrip
-void h_lemma_roundtrip(void){ int a_rule = nondet_int(), a_a = nondet_int(), a_k = nondet_int(), a_x = nondet_int(); lemma_roundtrip(a_rule, a_a, a_k, a_x); __CPROVER_assert(0, "VACUITY-CANARY"); }
+//@ harness h_lemma_jacobian
+void h_lemma_jacobian(void){ int a_rule = nondet_int(), a_a = nondet_int(), a_k = nondet_int(), a_x = nondet_int(); lemma_jacobian(a_rule, a_a, a_k, a_x); __CPROVER_assert(0, "VACUITY-CANARY"); }
 
 //@ lemma lemma_qscale
 void lemma_qscale(int rule_i, int a0, int k0, int a1, int k1)
